@@ -315,30 +315,36 @@ int sx127x_fsk_ook_is_address_filtered(sx127x *device, bool *address_filtered) {
 int sx127x_fsk_ook_read_payload_batch(bool read_batch, sx127x *device) {
   uint8_t remaining_fifo = FIFO_SIZE_FSK;
   if (device->expected_packet_length == 0) {
-    uint16_t packet_length;
+    // registers first: if one of these transfers fails, neither the FIFO nor the handle has changed
+    bool address_filtered;
+    ERROR_CHECK(sx127x_fsk_ook_is_address_filtered(device, &address_filtered));
+    uint16_t packet_length = 0;
+    uint8_t header[2];
+    uint8_t header_length = 0;
     if (device->fsk_ook_format == SX127X_FIXED) {
       ERROR_CHECK(sx127x_fsk_ook_read_fixed_packet_length(device, &packet_length));
     } else if (device->fsk_ook_format == SX127X_VARIABLE) {
-      uint8_t value;
-      ERROR_CHECK(sx127x_read_register(REGFIFO, &device->spi_device, &value));
-      packet_length = value;
-      remaining_fifo--;
+      header_length++;
     } else {
       return SX127X_OK;
     }
-    device->expected_packet_length = packet_length;
-    bool address_filtered;
-    ERROR_CHECK(sx127x_fsk_ook_is_address_filtered(device, &address_filtered));
     // if node filtering is enabled, then skip next byte because it will be node id
     if (address_filtered) {
-      uint8_t value;
-      ERROR_CHECK(sx127x_read_register(REGFIFO, &device->spi_device, &value));
-      // a zero length byte announces no address byte either
-      if (device->expected_packet_length > 0) {
-        device->expected_packet_length--;
-      }
-      remaining_fifo--;
+      header_length++;
     }
+    // length byte and node id leave the FIFO in one transfer: a failure cannot separate them
+    if (header_length > 0) {
+      ERROR_CHECK(sx127x_shadow_spi_read_buffer(REGFIFO, header, header_length, &device->spi_device));
+      remaining_fifo -= header_length;
+    }
+    if (device->fsk_ook_format == SX127X_VARIABLE) {
+      packet_length = header[0];
+    }
+    // a zero length byte announces no address byte either
+    if (address_filtered && packet_length > 0) {
+      packet_length--;
+    }
+    device->expected_packet_length = packet_length;
   }
 
   // safe check
